@@ -647,6 +647,10 @@ def rule_t4(chk: Check, ix: Index):
     chk.units["scanner_patterns"] = sorted(pats)
 
 
+def ir_for_w1():
+    return repo.ir_x()
+
+
 def run(chk: Check):
     chk.explanation = (
         "Per loop and per raise site: the per-line scan loop makes progress on every iteration (fresh position snapshot for the "
@@ -669,6 +673,9 @@ def run(chk: Check):
     rule_t2(chk, ix)
     rule_t3(chk, ix, reach)
     rule_t4(chk, ix)
+    # exponential re-parsing is a hang for practical purposes, like T4: same-position forks through unmemoised cycles (C18 W1)
+    from .c18 import rule_w1
+    rule_w1(chk, ir_for_w1(), False, "W1-memo-barrier")
     rule_e1(chk, ix, reach)
     tr = typed.run()
     rule_e1b(chk, tr)
